@@ -414,7 +414,7 @@ pub fn sequences(depth: usize, reduced: bool) -> Vec<Vec<Call>> {
 pub fn run(started: Instant) -> i32 {
     let thorough = infra::thorough();
     let depth = if thorough { 4 } else { 3 };
-    let rdepth = if thorough { 8 } else { 6 };
+    let rdepth = if thorough { 7 } else { 6 };
     let mut jobs: Vec<(Vec<Call>, L4)> = Vec::new();
     for s in sequences(depth, false) {
         jobs.push((s.clone(), L4::None));
